@@ -97,6 +97,16 @@ def safe_check(mod, case):
         return {"case": abbreviate(case, 3000), "trace": traceback.format_exc()}
 
 
+def _big_of(case):
+    """Name of the blown-up dimension of a generated program (gen.inflate), if any."""
+    if isinstance(case, dict):
+        prog = case.get("program") if isinstance(case.get("program"), dict) else case
+        big = prog.get("big")
+        if isinstance(big, str):
+            return big
+    return None
+
+
 # ---------------------------------------------------------------------------
 # per-process recorder
 # ---------------------------------------------------------------------------
@@ -136,6 +146,9 @@ class Recorder(object):
         self.subchecks[sub] += 1
         for name in res.labels:
             self.labels[name] += 1
+        big = _big_of(case)
+        if big:
+            self.labels["big:" + big] += 1
         if res.nontrivial:
             h = case_hash(case)
             if h not in self.nontrivial:
